@@ -421,7 +421,7 @@ def gen_ttl_lit(rng, tagged=False):
     body = [("p", "v")] + body + [("p", "w")]
     suf = None
     if tagged:
-        suf = rng.choice([("lang", "en"), ("dt", DTS[0])])
+        suf = ("lang", rng.choice(LANGS)) if rng.random() < 0.5 else ("dt", rng.choice(DTS))
     return ("lit", body, suf)
 
 
@@ -531,7 +531,6 @@ KNOWN = {
     "C13-n3-multichunk": "parse_n3 of a document of more than 1000 lines: each chunk has its own dictionary and prefix table",
     "C13-literal-recleaned": "N-Triples/N-Quads literal whose VALUE is cleaned a second time by encode_term_star (trimmed / unquoted / <> stripped)",
     "C13-n3-literal-quoted": "parse_n3 stores a literal together with its quotes (and datatype), unlike the other loaders",
-    "C13-turtle-tagged-literal": "parse_turtle stores a language-tagged or typed literal with a stray quote and the raw suffix",
     "C13-n3-hash-in-term": "parse_n3 cuts every line at the first '#', also inside an IRI or a literal",
 }
 
@@ -545,7 +544,7 @@ def has_hash(op):
 
 def classes_of(op, flags):
     """known classes (ids) the document load `op` falls in; flags come from the Coq classifiers"""
-    n3k, recl, n3lit, ttltag, n3hash = flags
+    n3k, recl, n3lit, n3hash = flags
     fmt = op[1]
     out = []
     if fmt in ("nt", "nq") and recl:
@@ -558,8 +557,6 @@ def classes_of(op, flags):
             out.append("C13-n3-literal-quoted")
         if n3hash:
             out.append("C13-n3-hash-in-term")
-    if fmt == "ttl" and ttltag:
-        out.append("C13-turtle-tagged-literal")
     return out
 
 
@@ -991,7 +988,10 @@ def gen_agreement(rng, n, with_literals):
         s = ("iri", "http://e/s%d" % rng.randrange(V))
         p = ("iri", "http://e/p%d" % rng.randrange(max(2, V // 4)))
         if with_literals and rng.random() < 0.4:
-            o = ("lit", [("p", ch) for ch in rng.choice(["x", "hello world", "v%d" % rng.randrange(V), "a b c", "Z9"])], None)
+            suf = None
+            if with_literals == 2 and rng.random() < 0.6:
+                suf = ("lang", rng.choice(LANGS)) if rng.random() < 0.5 else ("dt", rng.choice(DTS))
+            o = ("lit", [("p", ch) for ch in rng.choice(["x", "hello world", "v%d" % rng.randrange(V), "a b c", "Z9"])], suf)
         else:
             o = ("iri", "http://e/o%d" % rng.randrange(V))
         triples.append((s, p, o))
@@ -1016,10 +1016,11 @@ def gen_agreement(rng, n, with_literals):
 def agreement_cases(rng, n_cases, sizes):
     cases = []
     for k in range(n_cases):
-        a = gen_agreement(rng, rng.choice(sizes), with_literals=(k % 2 == 0))
+        a = gen_agreement(rng, rng.choice(sizes), with_literals=(k % 3))    # 0 IRIs only, 1 plain literals, 2 tagged/typed
         for fmt in ("nt", "nq", "ttl", "n3"):
             cases.append({"ops": [["doc", fmt, a[fmt], True]], "agree": k})
-        cases.append({"ops": [["xml", a["xml"], True, a["spec"]]], "agree": k})
+        if k % 3 != 2:      # parse_rdf has no syntax for language tags / datatypes in this subset
+            cases.append({"ops": [["xml", a["xml"], True, a["spec"]]], "agree": k})
     return cases
 
 
@@ -1089,9 +1090,6 @@ def malformed_lines(rng, n, fmt):
         else:
             out.append(ritem(gen_nt_stmt(rng, 5, fmt == "nq")))
     out = [l for l in out if not outside_model(l)]
-    if fmt in ("ttl",):
-        # a lone quote token makes clean_turtle_term slice [1..0] and panic: outside C13, kept out of this stream
-        out = [l for l in out if not lone_quote_token(l)]
     return out
 
 
@@ -1152,27 +1150,27 @@ def run(ctx):
     replay_known(ctx, binpath)
 
     # 1. corpus
-    eval_db(ctx, binpath, corpus_cases(), "corpus", threads_all=True)
+    eval_db(ctx, binpath, [c for c in corpus_cases() if T or c.get("tier") != "thorough"], "corpus", threads_all=True)
 
     # 2. function-level, exhaustive small scope + random
     L = 5 if T else 4
     L2 = 6 if T else 5
-    eval_fn(ctx, binpath, "parts", exhaustive_strings(PARTS_ALPHA, L) + exhaustive_strings(PARTS_ALPHA[:5], L2) + term_strings(rng, 3000 if T else 400)
-            + [ritem(gen_nt_stmt(rng, 5, True))[:-1] for _ in range(2000 if T else 300)] + malformed_lines(rng, 3000 if T else 300, "nq"), "fn_parse_ntriples_parts")
+    eval_fn(ctx, binpath, "parts", exhaustive_strings(PARTS_ALPHA, L) + exhaustive_strings(PARTS_ALPHA[:5], L2) + term_strings(rng, 3000 if T else 250)
+            + [ritem(gen_nt_stmt(rng, 5, True))[:-1] for _ in range(2000 if T else 200)] + malformed_lines(rng, 3000 if T else 200, "nq"), "fn_parse_ntriples_parts")
     ctx.coverage["exhaustive"] = True
     ctx.coverage["exhaustive_scope"] = ("parse_ntriples_parts on every string of length <= %d over the alphabet %s and of length <= %d over %s; "
                                         "tokenize_turtle_star_line likewise (length <= %d); documents of exactly 0, 1, 2, 999, 1000, 1001, 1999, 2000, 2001 lines"
                                         % (L, PARTS_ALPHA, L2, PARTS_ALPHA[:5], L))
     eval_fn(ctx, binpath, "ttl_tokens", exhaustive_strings(['<', '>', '"', '\\', ' ', 'a', '.', ';'], L) + term_strings(rng, 2000 if T else 300)
-            + [ritem(i) for i in gen_ttl_doc(rng, 1500 if T else 250, p_tagged=0.3)], "fn_tokenize_turtle_star_line")
+            + [ritem(i) for i in gen_ttl_doc(rng, 1500 if T else 150, p_tagged=0.3)], "fn_tokenize_turtle_star_line")
     eval_fn(ctx, binpath, "clean", term_strings(rng, 4000 if T else 500) + literal_strings(rng, 2000 if T else 300), "fn_clean_ntriples_term")
     eval_fn(ctx, binpath, "declit", literal_strings(rng, 6000 if T else 700), "fn_decode_ntriples_literal")
-    eval_fn(ctx, binpath, "ttl_clean", [s for s in term_strings(rng, 2000 if T else 300) + literal_strings(rng, 1500 if T else 200) if s.strip() != '"'], "fn_clean_turtle_term")
+    eval_fn(ctx, binpath, "ttl_clean", term_strings(rng, 2000 if T else 300) + literal_strings(rng, 1500 if T else 200) + ['"', ' " ', '""', '"x', 'x"'], "fn_clean_turtle_term")
     eval_star(ctx, binpath, [term_strings(rng, rng.choice([1, 3, 6])) for _ in range(1500 if T else 250)], "fn_encode_term_star")
 
     # 3. chunk structure of parse_ntriples at the boundaries (C13_chunking)
     docs = []
-    for n in ([0, 1, 2] + BOUNDARY + [2999, 3000, 3001, 3500] if T else [0, 1, 999, 1000, 1001, 2000, 2001, 3500]):
+    for n in ([0, 1, 2] + BOUNDARY + [2999, 3000, 3001, 3500] if T else [0, 1, 999, 1000, 1001, 1999, 2000, 2001]):
         for rep in range(2 if T else 1):
             docs.append(gen_big_nt(rng, n, fill=0.05) if n > 10 else ["doc", "nt", gen_nt_doc(rng, n, V=12, p_unclean=0.0)])
     eval_chunks(ctx, binpath, docs, "nt_chunks")
@@ -1180,7 +1178,7 @@ def run(ctx):
     # 4. N-Triples / N-Quads documents x prior databases
     cases = []
     sizes_small = [0, 1, 1, 2, 3, 5, 8, 13, 30]
-    nsmall = 900 if T else 150
+    nsmall = 900 if T else 100
     for k in range(nsmall):
         fmt = "nq" if k % 3 == 0 else "nt"
         doc = ["doc", fmt, gen_nt_doc(rng, rng.choice(sizes_small), quads=(fmt == "nq"), p_unclean=0.04), True]
@@ -1194,10 +1192,10 @@ def run(ctx):
             ops.append(["doc", f2, gen_nt_doc(rng, rng.choice(sizes_small), quads=(f2 == "nq"), p_unclean=0.0), True])
         cases.append({"ops": ops, "eol": rng.choice(["\n", "\n", "\r\n"]), "prior": kind})
     big = []
-    for n in BOUNDARY + [3500] + ([1500, 2500, 3499] if T else []):
+    for n in BOUNDARY + ([3500, 1500, 2500, 3499] if T else []):
         for rep in range(3 if T else 1):
             for fmt in ("nt", "nq"):
-                if fmt == "nq" and not T and n not in (1000, 1001, 2001):
+                if fmt == "nq" and not T and n != 1001:
                     continue
                 doc = gen_big_nt(rng, n, quads=(fmt == "nq")) + [True]
                 kind = ["empty", "sharing", "disjoint"][(len(big)) % 3]
@@ -1212,7 +1210,7 @@ def run(ctx):
 
     # 5. N3: single chunk into an empty database (the theorem's side), and the known classes
     n3 = []
-    for k in range(600 if T else 110):
+    for k in range(600 if T else 90):
         n = rng.choice([0, 1, 2, 3, 5, 8, 20, 60])
         r = k % 10
         doc = ["doc", "n3", gen_n3_doc(rng, n, p_lit=(0.3 if r == 7 else 0.0), hash_ok=(r == 8)), True]
@@ -1224,7 +1222,7 @@ def run(ctx):
         if r == 9:      # a consistent database produced by parse_n3 must accept a later N-Triples document
             ops.append(["doc", "nt", gen_nt_doc(rng, rng.choice([1, 3, 8]), p_unclean=0.0), True])
         n3.append({"ops": ops, "eol": rng.choice(["\n", "\r\n"])})
-    for n in [999, 1000, 1001, 1500, 2001] + ([1999, 2000, 3500] if T else []):
+    for n in [999, 1000, 1001, 1500] + ([1999, 2000, 2001, 3500] if T else []):
         for rep in range(2 if T else 1):
             n3.append({"ops": [gen_big_n3(rng, n, late_prefix=(rep == 1)) + [True]], "threads_all": True})
     ctx.sample({"ops": json.loads(json.dumps(n3[0]["ops"]))})
@@ -1232,18 +1230,27 @@ def run(ctx):
 
     # 6. Turtle, one statement (or one ; , list) per line
     ttl = []
-    for k in range(500 if T else 90):
+    for k in range(500 if T else 60):
         n = rng.choice([0, 1, 2, 3, 5, 8, 20])
-        doc = ["doc", "ttl", gen_ttl_doc(rng, n, p_tagged=(0.5 if k % 9 == 8 else 0.0)), True]
+        doc = ["doc", "ttl", gen_ttl_doc(rng, n, p_tagged=0.4), True]
         ops = []
         if k % 3 == 1:
             ops = gen_prior(rng, "disjoint", [doc])
             ops[-1][-1] = True
         ops.append(doc)
         ttl.append({"ops": ops})
-    for n in ([1000, 1001, 2001] if T else [1001]):
+    for n in ([1000, 1001, 2001] if T else []):
         ttl.append({"ops": [gen_big_ttl(rng, n) + [True]]})
     eval_db(ctx, binpath, ttl, "turtle")
+
+    # 6b. Turtle `{| p o |}` annotations (RDF-star), incl. markers inside a literal (fix e7e251c): implementation vs model
+    ann = []
+    objs = ['<http://e/o>', '"v"', '"a {| b c |} d"', '"{|}"', '"x"@en', '"5"^^<http://dt/x>', 'ex:o', '_:b1', '"a {| b"']
+    anns = ['{| <http://e/q> "w" |}', '{| ex:q <http://e/z> |}', '{| <http://e/q> |}', '{| |}', '{| <http://e/q> "w"', '|} {| <http://e/q> "w" |}', '']
+    for o in objs:
+        for a in anns:
+            ann.append({"ops": [["raw", "ttl", ["@prefix ex: <http://e/> .", "<http://e/s> <http://e/p> %s %s ." % (o, a)], True]]})
+    eval_db(ctx, binpath, ann, "turtle_annotations")
 
     # 7. malformed documents: implementation vs model only
     mal = []
